@@ -967,3 +967,238 @@ Proof.
   split; [vm_compute; reflexivity|]. split; [vm_compute; reflexivity|].
   intros H. apply subseqb_complete in H. vm_compute in H. discriminate.
 Qed.
+
+(** * Compaction
+
+    The model's [merge_rows] sorts the concatenation of the inputs (in the listed
+    order) with the STABLE [flush_order]; per context the output is therefore the
+    concatenation of the inputs' rows of that context.  The implementation's heap
+    compares context ids only: the relative order of equal contexts coming from
+    different inputs is arbitrary there (known finding
+    CompactionScramblesContextOrder).  That tie order is outside the model; the
+    harness compares REPLAY results as multisets after a compaction. *)
+
+Lemma merge_rows_ctx ds inputs u c :
+  of_ctx c (merge_rows ds inputs u) = concat (map (fun i => F u c (rows_of ds i)) inputs).
+Proof.
+  unfold merge_rows. rewrite flush_order_of_ctx. unfold of_ctx. rewrite filter_concat_map. reflexivity.
+Qed.
+
+Lemma merge_rows_uid ds inputs u e : In e (merge_rows ds inputs u) -> euid e = u.
+Proof.
+  unfold merge_rows. rewrite flush_order_in. intros H. apply in_concat in H as (l & Hl & He).
+  apply in_map_iff in Hl as (i & <- & _). apply filter_In in He as [_ He]. apply N.eqb_eq, He.
+Qed.
+
+Lemma ss_app {A} (R : A -> A -> Prop) a b :
+  StronglySorted R a -> StronglySorted R b -> (forall x y, In x a -> In y b -> R x y) ->
+  StronglySorted R (a ++ b).
+Proof.
+  induction a as [|x a IH]; cbn [app]; intros Ha Hb Hab; [exact Hb|].
+  apply StronglySorted_inv in Ha as [Ha Hx]. constructor.
+  - apply IH; [exact Ha | exact Hb | intros y z Hy Hz; apply Hab; [right; exact Hy | exact Hz]].
+  - apply Forall_app. split; [exact Hx|]. apply Forall_forall. intros y Hy. apply Hab; [left; reflexivity | exact Hy].
+Qed.
+
+Lemma ss_concat_map {A B} (R : B -> B -> Prop) (g : A -> list B) l :
+  (forall i, In i l -> StronglySorted R (g i)) ->
+  ForallOrdPairs (fun i j => forall x y, In x (g i) -> In y (g j) -> R x y) l ->
+  StronglySorted R (concat (map g l)).
+Proof.
+  induction l as [|i r IH]; cbn [map concat]; intros Hs Hp; [constructor|].
+  inversion Hp as [|i' r' Hi Hr]; subst. apply ss_app.
+  - apply Hs. left. reflexivity.
+  - apply IH; [intros j Hj; apply Hs; right; exact Hj | exact Hr].
+  - intros x y Hx Hy. apply in_concat in Hy as (l0 & Hl0 & Hy). apply in_map_iff in Hl0 as (j & <- & Hj).
+    rewrite Forall_forall in Hi. exact (Hi j Hj x y Hx Hy).
+Qed.
+
+(** C04_order_if_stable: for ANY relation [R] ("appended before"): if every input
+    holds the context's events [R]-sorted and every event of an earlier listed
+    input is [R]-before every event of a later one, the merged output holds the
+    context's events [R]-sorted. *)
+Theorem stable_merge_keeps_order : forall (R : event -> event -> Prop) ds inputs u c,
+  (forall i, In i inputs -> StronglySorted R (of_ctx c (of_uid u (Compaction.rows_of ds i)))) ->
+  ForallOrdPairs (fun i j => forall x y,
+     In x (of_ctx c (of_uid u (Compaction.rows_of ds i))) ->
+     In y (of_ctx c (of_uid u (Compaction.rows_of ds j))) -> R x y) inputs ->
+  StronglySorted R (of_ctx c (merge_rows ds inputs u)).
+Proof.
+  intros R ds inputs u c Hs Hp. rewrite merge_rows_ctx. apply ss_concat_map; assumption.
+Qed.
+
+Lemma rows_of_cons d ds i : rows_of (d :: ds) i = (if sid d =? i then srows d else []) ++ rows_of ds i.
+Proof. unfold rows_of. cbn [filter]. destruct (sid d =? i); reflexivity. Qed.
+
+Lemma rows_of_cons_ne d ds i : sid d <> i -> rows_of (d :: ds) i = rows_of ds i.
+Proof. intros H. rewrite rows_of_cons. destruct (N.eqb_spec (sid d) i); [contradiction | reflexivity]. Qed.
+
+Lemma rows_of_none ds i : (forall d, In d ds -> sid d <> i) -> rows_of ds i = [].
+Proof.
+  intros H. unfold rows_of. rewrite (filter_none (fun d => sid d =? i) ds); [reflexivity|].
+  intros d Hd. apply N.eqb_neq, H, Hd.
+Qed.
+
+(** with directories and inputs both in label order, the selected rows are a subsequence of all rows *)
+Lemma sel_subseq ds : forall inputs,
+  StronglySorted N.lt (map sid ds) -> StronglySorted N.lt inputs ->
+  Subseq (concat (map (rows_of ds) inputs)) (all_rows ds).
+Proof.
+  induction ds as [|d ds IH]; intros inputs Hs Hi.
+  - assert (E : forall l, concat (map (rows_of []) l) = [])
+      by (induction l as [|a r IHr]; [reflexivity | cbn [map concat]; rewrite IHr; reflexivity]).
+    rewrite E. constructor.
+  - cbn [map] in Hs. apply StronglySorted_inv in Hs as [Hs Hd]. rewrite Forall_forall in Hd.
+    assert (Hgt : forall i, i <= sid d -> rows_of ds i = []).
+    { intros i Hle. apply rows_of_none. intros d0 Hd0 E. specialize (Hd (sid d0) (in_map sid _ _ Hd0)). lia. }
+    change (all_rows (d :: ds)) with (srows d ++ all_rows ds).
+    induction inputs as [|i rest IHi]; [apply Subseq_nil_l|].
+    pose proof Hi as Hi0. apply StronglySorted_inv in Hi as [Hi Hir]. rewrite Forall_forall in Hir.
+    destruct (N.lt_trichotomy i (sid d)) as [Hlt|[Heq|Hlt]].
+    + cbn [map concat]. rewrite rows_of_cons_ne by lia. rewrite Hgt by lia. cbn [app]. apply IHi, Hi.
+    + cbn [map concat]. rewrite rows_of_cons, Heq, N.eqb_refl, Hgt by lia. rewrite app_nil_r.
+      apply Subseq_app; [apply Subseq_refl|].
+      rewrite (concat_map_ext_in (rows_of (d :: ds)) (rows_of ds)); [apply IH; assumption|].
+      intros j Hj. apply rows_of_cons_ne. specialize (Hir j Hj). lia.
+    + apply Subseq_app_l.
+      rewrite (concat_map_ext_in (rows_of (d :: ds)) (rows_of ds)); [apply IH; assumption|].
+      intros j [<-|Hj]; apply rows_of_cons_ne; [lia | specialize (Hir j Hj); lia].
+Qed.
+
+(** on a reachable crash-free state: merging level-0 directories listed in label
+    order yields, per context, a subsequence of the append order *)
+Theorem merge_in_order : forall c0 ls inputs u c,
+  no_crash ls -> NoDup (map ek (applied ls)) -> StronglySorted N.lt inputs ->
+  let s := run (init c0) ls in
+  Subseq (of_ctx c (merge_rows (dirs s) inputs u)) (ctx_events ls u c).
+Proof.
+  intros c0 ls inputs u c Hc Hk Hi s. pose proof (ord_run c0 ls Hc Hk) as O. fold s in O.
+  rewrite merge_rows_ctx, <- F_concat_map. change (ctx_events ls u c) with (F u c (applied ls)).
+  rewrite <- (o_seq _ _ _ _ _ _ _ O u c). apply Subseq_app_r, F_subseq, sel_subseq; [apply (o_ds _ _ _ _ _ _ _ O) | exact Hi].
+Qed.
+
+Lemma concat_single {B} (g : N -> list B) l u :
+  NoDup l -> In u l -> (forall x, In x l -> x <> u -> g x = []) -> concat (map g l) = g u.
+Proof.
+  induction l as [|x r IH]; intros Hn Hu Hg; [destruct Hu|].
+  apply NoDup_cons_iff in Hn as [Hx Hn]. cbn [map concat]. destruct Hu as [->|Hu].
+  - rewrite (concat_map_ext_in g (fun _ => [])), concat_map_nil, app_nil_r; [reflexivity|].
+    intros y Hy. apply Hg; [right; exact Hy | intros ->; contradiction].
+  - rewrite (Hg x (or_introl eq_refl)) by (intros ->; contradiction). cbn [app].
+    apply IH; [exact Hn | exact Hu | intros y Hy; apply Hg; right; exact Hy].
+Qed.
+
+(** the rows of type [u] and context [c] in the output directory of a batch *)
+Lemma cp_write_out_rows s b u c :
+  NoDup (b_uids b) -> In u (b_uids b) ->
+  F u c (rows_of (dirs (cp_write s b)) (b_out b)) = of_ctx c (merge_rows (dirs s) (b_inputs b) u).
+Proof.
+  intros Hn Hu. unfold cp_write. cbn [dirs]. unfold rows_of at 1. rewrite filter_app, map_app, concat_app.
+  rewrite (filter_none (fun d => sid d =? b_out b) (filter _ (dirs s))).
+  2:{ intros d Hd. apply filter_In in Hd as [_ Hd]. apply negb_true_iff, Hd. }
+  cbn [filter sid map concat srows app]. rewrite N.eqb_refl. cbn [map concat srows]. rewrite app_nil_r, F_app.
+  rewrite (F_of_uid_none u c (filter _ _)).
+  2:{ unfold of_uid. apply filter_none. intros e He. apply filter_In in He as [_ He].
+      apply negb_true_iff, memb_false in He. apply N.eqb_neq. intros E. apply He. rewrite E. exact Hu. }
+  cbn [app]. unfold batch_rows. rewrite F_concat_map.
+  rewrite (concat_single (fun u' => F u c (merge_rows (dirs s) (b_inputs b) u')) (b_uids b) u Hn Hu).
+  - unfold F. f_equal. unfold of_uid. apply filter_all, forallb_forall.
+    intros e He. apply N.eqb_eq. eapply merge_rows_uid, He.
+  - intros x _ Hx. apply F_of_uid_none. unfold of_uid. apply filter_none. intros e He.
+    apply merge_rows_uid in He. apply N.eqb_neq. congruence.
+Qed.
+
+Theorem compaction_output_in_order : forall c0 ls b u c,
+  no_crash ls -> NoDup (map ek (applied ls)) ->
+  StronglySorted N.lt (b_inputs b) -> NoDup (b_uids b) -> In u (b_uids b) ->
+  let s := run (init c0) ls in
+  let s1 := crun s (batch_steps s b) in
+  Subseq (of_ctx c (of_uid u (Compaction.rows_of (dirs s1) (b_out b)))) (ctx_events ls u c).
+Proof.
+  intros c0 ls b u c Hc Hk Hi Hn Hu s s1.
+  change (dirs s1) with (dirs (cp_write s b)).
+  change (of_ctx c (of_uid u (Compaction.rows_of (dirs (cp_write s b)) (b_out b))))
+    with (F u c (rows_of (dirs (cp_write s b)) (b_out b))).
+  rewrite (cp_write_out_rows s b u c Hn Hu). apply merge_in_order; assumption.
+Qed.
+
+(** Refuted on the model: three level-0 segments hold k1, k2, k3 of one context; the
+    batch {0,1} -> 10000 (fan-in 2) is one the policy produces; its output directory
+    is listed AFTER the newer level-0 directory 2, so the segment flow is 3,1,2. *)
+Definition ls_cp : list label :=
+  [LStore (mkEv 1 1 0)] ++ flush_all [0] ++ [LStore (mkEv 2 1 0)] ++ flush_all [0]
+  ++ [LStore (mkEv 3 1 0)] ++ flush_all [0].
+Definition b_cp : batch := mkBatch 10000 [0; 1] [0].
+
+Lemma compaction_order_refuted :
+  exists c0 k ls b u c,
+    let s := run (init c0) ls in
+    let s1 := crun s (batch_steps s b ++ [CReclaim (drained (index s) b)]) in
+    no_crash ls /\ NoDup (map ek (applied ls)) /\ jobs s = [] /\
+    batch_ok (index s) k b = true /\ b_inputs b = [0; 1] /\ In u (b_uids b) /\
+    map sid (dirs s1) = [2; 10000] /\ live s1 = [2; 10000] /\
+    replay_mem s1 u c = [] /\
+    map ek (replay_seg s1 u c) = [3; 1; 2] /\ map ek (ctx_events ls u c) = [1; 2; 3] /\
+    ~ Subseq (replay_seg s1 u c) (ctx_events ls u c).
+Proof.
+  exists 1, 2, ls_cp, b_cp, 0, 1. cbv zeta.
+  split; [vm_compute; reflexivity|]. split; [apply nodupb_sound; vm_compute; reflexivity|].
+  split; [vm_compute; reflexivity|]. split; [vm_compute; reflexivity|]. split; [reflexivity|].
+  split; [left; reflexivity|]. split; [vm_compute; reflexivity|]. split; [vm_compute; reflexivity|].
+  split; [vm_compute; reflexivity|]. split; [vm_compute; reflexivity|]. split; [vm_compute; reflexivity|].
+  intros H. apply subseqb_complete in H. vm_compute in H. discriminate.
+Qed.
+
+(** * Non-vacuity *)
+
+(** capacity 2, one type, context 1 spans: directories 0 and 1 (complete), directory 2
+    (in flight: written and published, passive copy not yet released), the passive copy
+    of segment 3 (queued) and the active memtable. *)
+Definition ls_tiers : list label :=
+  [LStore (mkEv 1 1 0); LStore (mkEv 2 1 0)] ++ flush_all [0]
+  ++ [LStore (mkEv 3 1 0); LStore (mkEv 4 2 0)] ++ flush_all [0]
+  ++ [LStore (mkEv 5 1 0); LFlushCmd; LFw FwBegin; LFw FwMkdir; LFw (FwWrite 0); LFw FwIndex; LFw FwPublish;
+      LStore (mkEv 6 1 0); LFlushCmd; LStore (mkEv 7 1 0)].
+
+Example tiers_example :
+  let s := run (init 2) ls_tiers in
+  no_crash ls_tiers /\ NoDup (map ek (applied ls_tiers)) /\
+  map sid (dirs s) = [0; 1; 2] /\ map jstage (jobs s) = [StPublished; StQueued] /\
+  map (fun p => (fst p, map ek (snd p))) (passives s) = [(0, []); (1, []); (2, [5]); (3, [6])] /\
+  map ek (mem s) = [7] /\
+  map ek (replay_seg s 0 1) = [1; 2; 3; 5] /\
+  map ek (replay_mem s 0 1) = [7; 5; 6] /\ map ek (replay_mem_fifo s 0 1) = [5; 6; 7] /\
+  ActiveBeforePassive s 0 1 = true /\
+  map ek (dedup_keys (replay_seg s 0 1 ++ replay_mem_fifo s 0 1)) = [1; 2; 3; 5; 6; 7] /\
+  map ek (ctx_events ls_tiers 0 1) = [1; 2; 3; 5; 6; 7].
+Proof.
+  cbv zeta. split; [vm_compute; reflexivity|]. split; [apply nodupb_sound; vm_compute; reflexivity|].
+  repeat split; vm_compute; reflexivity.
+Qed.
+
+(** a context in two directories and the active memtable, no passive copy: outside
+    [ActiveBeforePassive], "segments then memory" is the append order *)
+Example seg_then_mem_example :
+  let s := run (init 4) ls_fanin in
+  no_crash ls_fanin /\ NoDup (map ek (applied ls_fanin)) /\ ActiveBeforePassive s 0 1 = false /\
+  map ek (replay_seg s 0 1) = [1; 3] /\ map ek (replay_mem s 0 1) = [4] /\
+  map ek (dedup_keys (replay_seg s 0 1 ++ replay_mem s 0 1)) = [1; 3; 4].
+Proof.
+  cbv zeta. split; [vm_compute; reflexivity|]. split; [apply nodupb_sound; vm_compute; reflexivity|].
+  repeat split; vm_compute; reflexivity.
+Qed.
+
+(** the hypotheses of [compaction_output_in_order] hold for the batch of
+    [compaction_order_refuted]; its output directory holds 1,2 in append order *)
+Example compaction_example :
+  let s := run (init 1) ls_cp in
+  let s1 := crun s (batch_steps s b_cp) in
+  no_crash ls_cp /\ NoDup (map ek (applied ls_cp)) /\ batch_ok (index s) 2 b_cp = true /\
+  StronglySorted N.lt (b_inputs b_cp) /\ NoDup (b_uids b_cp) /\ In 0 (b_uids b_cp) /\
+  map ek (of_ctx 1 (of_uid 0 (Compaction.rows_of (dirs s1) (b_out b_cp)))) = [1; 2].
+Proof.
+  cbv zeta. split; [vm_compute; reflexivity|]. split; [apply nodupb_sound; vm_compute; reflexivity|].
+  split; [vm_compute; reflexivity|].
+  split; [repeat constructor|]. split; [apply nodupb_sound; reflexivity|].
+  split; [left; reflexivity|]. vm_compute. reflexivity.
+Qed.
